@@ -64,6 +64,13 @@ func main() {
 		var m map[string]interface{}
 		json.Unmarshal(b, &m)
 		c.Only, _ = m["case_id"].(string)
+		if comp, ok := m["company"].([]interface{}); ok {
+			for _, x := range comp {
+				if id, ok := x.(string); ok {
+					c.OnlyCompany = append(c.OnlyCompany, id)
+				}
+			}
+		}
 		if t, _ := m["tier"].(string); t != "" {
 			c.Tier = t
 		}
